@@ -783,8 +783,81 @@ func (g *c12) alternateLoops() {
 	}
 }
 
+// resolvers: the path resolvers take a document or a context from outside as well. Nodes with several types whose
+// type-scoped contexts are of every kind - well formed, not a context at all, ill-formed inside, not loadable - at every
+// position of the (sorted) type list; a resolver answers with a path or an error.
+func (g *c12) resolvers(n int) {
+	r := g.r
+	pool := []string{`{"x":"urn:v#x"}`, `{"x":"urn:v#x"}`, `5`, `"relative/ctx"`, `{"@version":2}`, `[null,5]`, `{"x":{"@id":5}}`,
+		`"https://missing.example/c.jsonld"`, `true`, `{"@import":5}`, `null`, `{"@protected":true,"x":"urn:other#x"}`, `[null]`, `{"x":null}`, `{"@vocab":5}`}
+	loader := &mapLoader{docs: map[string][]byte{}}
+	opts := merklize.Options{DocumentLoader: loader}
+	for k := 0; k < n; k++ {
+		sc := [3]string{r.Pick(pool), r.Pick(pool), r.Pick(pool)}
+		prot := ""
+		if r.Chance(25) {
+			prot = `"@protected":true,`
+		}
+		ctx := fmt.Sprintf(`{"@version":1.1,%s"x":"urn:top#x","p":"urn:top#p","A":{"@id":"urn:A","@context":%s},"B":{"@id":"urn:B","@context":%s},"C":{"@id":"urn:C","@context":%s},"D":"urn:D"}`,
+			prot, sc[0], sc[1], sc[2])
+		typeList := func() string {
+			names := []string{"A", "B", "C", "D"}
+			var all []string
+			for _, i := range r.Perm(4) {
+				all = append(all, names[i])
+			}
+			b, _ := json.Marshal(all[:1+r.Intn(4)])
+			return string(b)
+		}
+		doc := []byte(fmt.Sprintf(`{"@context":%s,"@type":%s,"x":"v","p":[{"@type":%s,"x":"w"},{"@type":%s,"x":"u"}]}`, ctx, typeList(), typeList(), typeList()))
+		ctxDoc := []byte(`{"@context":` + ctx + `}`)
+		for _, path := range []string{"x", "p.0.x", "p.1.x", "p", "p.x"} {
+			path := path
+			g.probe("resolve-doc-path", J{"doc": string(doc), "path": path}, []string{"resolver", "doc-path"}, func() (any, error) {
+				p, err := opts.NewPathFromDocument(doc, path)
+				if err != nil {
+					return nil, err
+				}
+				return p.Parts(), nil
+			})
+		}
+		for _, t := range []string{"A", "B", "C", "D"} {
+			t := t
+			g.probe("resolve-ctx-path", J{"ctx": string(ctxDoc), "path": t + ".x"}, []string{"resolver", "ctx-path"}, func() (any, error) {
+				p, err := opts.PathFromContext(ctxDoc, t+".x")
+				if err != nil {
+					return nil, err
+				}
+				return p.Parts(), nil
+			})
+			g.probe("resolve-ctx-type", J{"ctx": string(ctxDoc), "path": t + ".x"}, []string{"resolver", "ctx-type"}, func() (any, error) {
+				dt, err := opts.TypeFromContext(ctxDoc, t+".x")
+				if err != nil {
+					return nil, err
+				}
+				return "type:" + dt, nil
+			})
+			g.probe("resolve-field-path", J{"ctx": string(ctxDoc), "type": t}, []string{"resolver", "field-path"}, func() (any, error) {
+				p, err := opts.FieldPathFromContext(ctxDoc, t, "x")
+				if err != nil {
+					return nil, err
+				}
+				return p.Parts(), nil
+			})
+			g.probe("resolve-type-id", J{"ctx": string(ctxDoc), "type": t}, []string{"resolver", "type-id"}, func() (any, error) {
+				id, err := opts.TypeIDFromContext(ctxDoc, t)
+				if err != nil {
+					return nil, err
+				}
+				return "id:" + id, nil
+			})
+		}
+	}
+}
+
 func genC12(out *Out, r *Rng, tier string, n int, shard int) {
 	g := &c12{out: out, r: r}
+	g.resolvers(3 * n)
 	if shard == 0 {
 		g.alternateLoops()
 	}
